@@ -14,7 +14,7 @@ RULE = ('gin-machine/skip: config texts mixing known / unknown / ambiguous targe
         'keep placeholders, anything else unknown is an error) + every placeholder must raise on use and at finalize. '
         'non-trivial = the text targets an unknown configurable AND (skip_unknown is list-valued OR an applied binding holds an unknown-reference placeholder).')
 TRUSTED_BASE = c16.TRUSTED_BASE
-ASSUMPTIONS = ['static registration only here; the dynamic-registration clause of the property is exercised by the C19 engine']
+ASSUMPTIONS = ['static registration (imports may register configurables: modelled); the dynamic-registration clause of the property is exercised by the C19 engine']
 
 KNOWN = {'f': 'm.f', 'm.f': 'm.f', 'g': 'n.g', 'n.g': 'n.g', 'k': 'k', 'x.h': 'x.h', 'y.h': 'y.h'}
 AMBIG = ['h']
@@ -250,10 +250,8 @@ PLUG_SKS = SKS + [['list', ['lfn']], ['set', ['lfn', 'zfn', 'u1']], ['tuple', ['
 
 class SkipPluginEngine(SkipEngine):
   """modules whose import REGISTERS configurables (a real import with side effects through a meta-path finder): a name
-  is unknown before the import statement and known after it, within one parse.  Implementation + reference
-  interpreter only: coq/Model/Stmt.v models imports without side effects."""
+  is unknown before the import statement and known after it, within one parse (Model/Stmt.v: register_mod)."""
   name = 'skip-unknown-plugins'
-  model = False
 
   def budget(self, tier):
     return 150 if tier == 'quick' else 4000
@@ -283,9 +281,6 @@ class SkipPluginEngine(SkipEngine):
     d = super().case(c)
     d['plugins'] = PLUGINS
     return d
-
-  def to_coq(self, c):
-    return ''
 
   def impl(self, c):
     m = textm.TextMachine(self.case(c))
